@@ -150,14 +150,15 @@ def install2(R):
     S["DrawnFrom"] = drawn_from
 
     R.add(FARM + "Sampler.gen_cases_fnargs", cls="Sampler", result="V", props=["C15"],
+          # the invariants speak of the merged choices (spec function over the entry state), not of the local that happens to hold them
           loops={"comp1": dict(idx="_j", inv=[
                      ("one_value_per_argument_so_far", "is_seq(_acc_comp1) and slen(_acc_comp1) == _j and "
-                                                       "forall(lambda k: implies(0 <= k and k < _j, ChoiceOk(combos, k, sget(_acc_comp1, k))))")]),
+                                                       "forall(lambda k: implies(0 <= k and k < _j, ChoiceOk(MergedCombos(self, old(combos)), k, sget(_acc_comp1, k))))")]),
                  "comp0": dict(idx="_i", inv=[
                      ("cases_so_far", "is_seq(_acc_comp0) and slen(_acc_comp0) == _i and "
-                                      "forall(lambda t: implies(0 <= t and t < _i, slen(sget(_acc_comp0, t)) == slen(combos.keys()))) and "
-                                      "forall(lambda t, k: implies(0 <= t and t < _i and 0 <= k and k < slen(combos.keys()), "
-                                      "ChoiceOk(combos, k, sget(sget(_acc_comp0, t), k))))")])},
+                                      "forall(lambda t: implies(0 <= t and t < _i, slen(sget(_acc_comp0, t)) == slen(MergedCombos(self, old(combos)).keys()))) and "
+                                      "forall(lambda t, k: implies(0 <= t and t < _i and 0 <= k and k < slen(MergedCombos(self, old(combos)).keys()), "
+                                      "ChoiceOk(MergedCombos(self, old(combos)), k, sget(sget(_acc_comp0, t), k))))")])},
           ensures=[("names_and_draws", "slen(result) == 2 and DrawnFrom(MergedCombos(self, combos), sget(result, 1), n) and "
                                        "sget(result, 0) == MergedCombos(self, combos).keys()"),
                    ("two_components", "slen(result) == 2"),
